@@ -324,10 +324,30 @@ def impl(case):
 # requests
 # ---------------------------------------------------------------------------
 
+def ls_draws(case, out):
+    """The machines `rng.randrange(n_machines)` yields in the local search of this call, recomputed
+    from the seed (support only: feeds the R_trace mirror).  For rule `random` the `rng.choice(ready)`
+    calls of `_dispatch` are replayed first; `None` if that does not reproduce the dispatch order."""
+    import random
+    jobs = case["jobs"]
+    if not jobs or len(out["scheds"]) < 2 or out["scheds"][1][0] != "final":
+        return None
+    rng = random.Random(case["seed"])
+    if case["rule"].lower() == "random":
+        nxt = [0] * len(jobs)
+        for j, _k, _s, _e in out["scheds"][0][1]:
+            ready = [jj for jj in range(len(jobs)) if nxt[jj] < len(jobs[jj])]
+            if not ready or rng.choice(ready) != j:
+                return None
+            nxt[j] += 1
+    nm = max(m for job in jobs for m, _ in job) + 1
+    return [rng.randrange(nm) for _ in range(case["max_iter"])]
+
+
 def js_request(case, out):
     rule = case["rule"].lower()
     return ["js", case["jobs"], RULES.index(rule) if rule in RULES else -1,
-            [[s[1], rat(s[2])] for s in out["scheds"]]]
+            [[s[1], rat(s[2])] for s in out["scheds"]], ls_draws(case, out)]
 
 
 def vrp_request(case, out):
@@ -388,7 +408,7 @@ def judge_js(ctx, case, o, reply):
                  f"valid input raised with local_search=True: {out['ls_error']}", rep)
     elif not out.get("unchanged", True):
         ctx.fail(fn, "input_modified", "the jobs argument was modified", rep)
-    rule_sched, verdicts = reply
+    rule_sched, verdicts, ls = reply
     for (tag, entries, obj), v in zip(out["scheds"], verdicts):
         if isinstance(v, str):
             raise core.Infra(f"model rejected schedule: {v}")
@@ -403,9 +423,25 @@ def judge_js(ctx, case, o, reply):
             ctx.tdiv(f, {"case": case, "what": f"{tag} schedule is valid but is not the abstract dispatch "
                                                "machine's schedule for its own pick order", "schedule": entries})
         ctx.count("js:sched:" + tag)
-    if rule_sched is not None and out["scheds"] and out["scheds"][0][1] != rule_sched:
-        ctx.tdiv(fn, {"case": case, "what": "dispatch-only schedule differs from the rule mirror",
-                      "impl": out["scheds"][0][1], "mirror": rule_sched})
+        ctx.count("checked:schedules(chkSchedule)")
+        if refine:
+            ctx.count("r_trace:schedule_is_dispatch_of_own_order")
+    if rule_sched is not None and out["scheds"]:
+        if out["scheds"][0][1] != rule_sched:
+            ctx.tdiv(fn, {"case": case, "what": "dispatch-only schedule differs from the rule mirror",
+                          "impl": out["scheds"][0][1], "mirror": rule_sched})
+        else:
+            ctx.count("r_trace:rule_mirror_equal")
+    if ls is not None:
+        fin = out["scheds"][1]
+        if sorted(ls[0]) != sorted(fin[1]) or ls[1] != fin[2]:
+            ctx.tdiv(fn, {"case": case, "what": "schedule/objective after local search differ from the mirror "
+                                               "localSearch run on the same drawn machines",
+                          "impl": [fin[1], fin[2]], "mirror": ls})
+        else:
+            ctx.count("r_trace:local_search_mirror_equal")
+    elif len(out["scheds"]) > 1 and out["scheds"][1][0] == "final" and case["jobs"]:
+        ctx.count("js:ls_mirror_skipped")
     improved = len(out["scheds"]) > 1 and out["scheds"][1][0] == "final" and out["scheds"][1][2] < out["scheds"][0][2]
     ctx.count("js:improved" if improved else "js:not_improved")
     ctx.case(["js", case], improved, {"case": case, "dispatch_obj": out["scheds"][0][2],
@@ -485,7 +521,9 @@ def judge_vrp(ctx, case, o, reply, ids, final_id):
     state_ok(top, final_id, [fin[0], fin[1], fin[2], out["final_obj"]], "final")
     if fin[1]:
         ctx.count("vrp:final_has_unassigned")
-    ctx.count(f"vrp:steps", len(reqs_steps))
+    ctx.count("vrp:steps", len(reqs_steps))
+    ctx.count("checked:vrp_steps(isRemove/isInsertRun)", len(reqs_steps))
+    ctx.count("checked:vrp_states(chkInv,chkArrivals,chkObjective)", len(sv))
     ctx.case(["vrp", case], removed >= 1 and inserted >= 1,
              {"case": case, "steps": len(reqs_steps), "final_routes": fin[0], "final_unassigned": fin[1],
               "objective": out["final_obj"], "exact_objective": sv[final_id][3]})
@@ -520,10 +558,16 @@ def run(ctx, budget):
     ctx.cov["rule"] = RULE
     big = ctx.tier == "thorough"
     cases = list(js_edges()) + [c["case"] for c in core.load_corpus("C18")]
-    cases += [gen_js(ctx.rng, big and i % 3 == 0) for i in range(3000 * budget)]
-    cases += [gen_vrp(ctx.rng, big and i % 3 == 0) for i in range(2000 * budget)]
+    js = [gen_js(ctx.rng, big and i % 3 == 0) for i in range(3000 * budget)]
+    vrp = [gen_vrp(ctx.rng, big and i % 3 == 0) for i in range(2000 * budget)]
+    for i in range(1000 * budget):  # interleaved 3:2 so that every batch (and the samples) holds both kinds
+        cases += js[3 * i:3 * i + 3] + vrp[2 * i:2 * i + 2]
     for i in range(0, len(cases), 2500):  # bounded memory: one batch of requests/replies at a time
         run_cases(ctx, cases[i:i + 2500])
+    h = ctx.cov["histogram"]
+    ctx.cov["cert_checked_impl"] = sum(v for k, v in h.items() if k.startswith("checked:"))
+    ctx.cov["r_trace_agree"] = sum(v for k, v in h.items() if k.startswith("r_trace:"))
+    ctx.cov["r_trace_diverge"] = sum(v for k, v in h.items() if k.startswith("r_trace_divergence:"))
 
 
 def replay(ctx, body):
